@@ -130,13 +130,20 @@ def _refresh_one(args):
     return sid, prop, new, None
 
 
-def refresh():
-    """recompute seeded/DETECTION.json: for every stored seed, which rules of which property's check report something new (in memory)"""
+def refresh(only=None):
+    """recompute seeded/DETECTION.json: for every stored seed (or the named ones), which rules of which property's check report something new (in memory)"""
     from concurrent.futures import ProcessPoolExecutor
     seeds = sorted(d for d in os.listdir('/verif/seeded') if os.path.isdir('/verif/seeded/' + d))
     props = built_props()
-    work = [(s, p) for s in seeds for p in props]
-    table = {s: {'property': json.load(open('/verif/seeded/%s/meta.json' % s))['property'], 'detected_by': {}, 'error': None} for s in seeds}
+    table = {}
+    if only:
+        table = json.load(open('/verif/seeded/DETECTION.json'))
+        seeds_todo = [s for s in seeds if s in only]
+    else:
+        seeds_todo = seeds
+    work = [(s, p) for s in seeds_todo for p in props]
+    for s in seeds_todo:
+        table[s] = {'property': json.load(open('/verif/seeded/%s/meta.json' % s))['property'], 'detected_by': {}, 'error': None}
     with ProcessPoolExecutor(16) as ex:
         for sid, prop, rules_, err in ex.map(_refresh_one, work, chunksize=4):
             if err:
@@ -153,7 +160,7 @@ def refresh():
 if __name__ == '__main__':
     mode = sys.argv[1]
     if mode == 'refresh':
-        refresh()
+        refresh(set(sys.argv[2:]) or None)
         sys.exit(0)
     if mode == 'mdetect':     # in-memory detection of seed directories anywhere (does not touch /repo)
         from concurrent.futures import ProcessPoolExecutor
